@@ -74,3 +74,85 @@ func RemoveAll(p string) error {
 	vunix.Post("os.RemoveAll")
 	return err
 }
+
+// ---- pass-through part of package os (so that code using further os identifiers still compiles
+// under the shim); mutating calls are scheduling / crash-image / fault points as well ----
+
+type (
+	FileInfo  = fs.FileInfo
+	FileMode  = fs.FileMode
+	DirEntry  = fs.DirEntry
+	PathError = fs.PathError
+	LinkError = os.LinkError
+)
+
+const (
+	O_APPEND = os.O_APPEND
+	ModePerm = fs.ModePerm
+	ModeDir  = fs.ModeDir
+)
+
+var (
+	ErrNotExist   = fs.ErrNotExist
+	ErrExist      = fs.ErrExist
+	ErrPermission = fs.ErrPermission
+)
+
+func Stat(name string) (fs.FileInfo, error)  { return os.Stat(name) }
+func Lstat(name string) (fs.FileInfo, error) { return os.Lstat(name) }
+func IsNotExist(err error) bool              { return os.IsNotExist(err) }
+func IsExist(err error) bool                 { return os.IsExist(err) }
+func ReadFile(name string) ([]byte, error)   { return os.ReadFile(name) }
+func ReadDir(name string) ([]fs.DirEntry, error) {
+	return os.ReadDir(name)
+}
+func SameFile(a, b fs.FileInfo) bool { return os.SameFile(a, b) }
+func Getpid() int                    { return os.Getpid() }
+
+func mutating(op, path string, f func() error) error {
+	if e := vunix.Pre("os." + op); e != 0 {
+		return perr(op, path, e)
+	}
+	err := f()
+	vunix.Post("os." + op)
+	return err
+}
+
+func Remove(name string) error {
+	return mutating("Remove", name, func() error { return os.Remove(name) })
+}
+func Mkdir(name string, perm fs.FileMode) error {
+	return mutating("Mkdir", name, func() error { return os.Mkdir(name, perm) })
+}
+func MkdirAll(name string, perm fs.FileMode) error {
+	return mutating("MkdirAll", name, func() error { return os.MkdirAll(name, perm) })
+}
+func WriteFile(name string, data []byte, perm fs.FileMode) error {
+	return mutating("WriteFile", name, func() error { return os.WriteFile(name, data, perm) })
+}
+func Truncate(name string, size int64) error {
+	return mutating("Truncate", name, func() error { return os.Truncate(name, size) })
+}
+func Link(a, b string) error { return mutating("Link", b, func() error { return os.Link(a, b) }) }
+func Symlink(a, b string) error {
+	return mutating("Symlink", b, func() error { return os.Symlink(a, b) })
+}
+func Chmod(name string, m fs.FileMode) error {
+	return mutating("Chmod", name, func() error { return os.Chmod(name, m) })
+}
+func Open(name string) (*File, error) { return OpenFile(name, os.O_RDONLY, 0) }
+func Create(name string) (*File, error) {
+	return OpenFile(name, os.O_RDWR|os.O_CREATE|os.O_TRUNC, 0o666)
+}
+
+func (f *File) Name() string                       { return f.f.Name() }
+func (f *File) Stat() (fs.FileInfo, error)         { return f.f.Stat() }
+func (f *File) Read(b []byte) (int, error)         { return f.f.Read(b) }
+func (f *File) Fd() uintptr                        { return f.f.Fd() }
+func (f *File) Seek(o int64, w int) (int64, error) { return f.f.Seek(o, w) }
+func (f *File) Sync() error {
+	return mutating("Sync", f.f.Name(), func() error { return f.f.Sync() })
+}
+func (f *File) Truncate(size int64) error {
+	return mutating("Ftruncate", f.f.Name(), func() error { return f.f.Truncate(size) })
+}
